@@ -37,7 +37,7 @@ LEVEL_TEXT = ('exploration: ~3*10^3 (quick) / ~3*10^4 (thorough) matrix-function
               'each residual computed exactly')
 LEVEL_NOTE = 'trusted base: vf/linalgq.py, reference exp values; matrices outside the stated envelope are only observed'
 TECHNIQUE = 'runtime reference-model monitor: exact evaluation of the identities on every returned matrix'
-SHARD_TIMEOUT = {'quick': 500, 'thorough': 3000}
+SHARD_TIMEOUT = {'quick': 1000, 'thorough': 10800}   # thorough: a shard needs ~60 CPU-s; the cap only bounds hangs (a loaded machine at 5% CPU per worker exceeded the former 3000 s)
 
 NSHARDS = 16
 CASES = {'quick': 190, 'thorough': 1900}
